@@ -401,7 +401,10 @@ class Driver:
                     # first the same exposure with a pin NAME the structure does not have (method or helper): it must
                     # be refused and leave nothing behind (the state compared next is the one without this call)
                     try:
-                        if (self.nmap // 2) % 2:
+                        if self.nmap % 3 == 0:
+                            # several exposures in ONE call, the last of them invalid: none of them may be made
+                            self.sol.map_pins({"x88": (st, self.pin(x)), "x89": (st, "nosuchpin")})
+                        elif (self.nmap // 2) % 2:
                             self.sol.map_pins({op[1]: (st, "nosuchpin")})
                         else:
                             with self.sol:
